@@ -1,6 +1,6 @@
 (* Extraction of M-LINT. ExtrOcamlBasic only; nat, positive, N stay inductive. *)
 Require Extraction.
 Require Import ExtrOcamlBasic.
-From Atlas Require Import Base.Bytes Lint.LintModel.
+From Atlas Require Import Base.Bytes Lint.LintModel Lint.LintNolintModel.
 Extraction Language OCaml.
-Extraction "model.ml" lint analyze_file.
+Extraction "model.ml" lint analyze_file lint_nl.
